@@ -173,6 +173,11 @@ func (m *Monitors) restoreEnd() {
 	if len(m.restores) == 0 || w.endWhy != "goal" || !w.converged() {
 		return // (the goal of some scenarios is the end of their calls, not convergence)
 	}
+	for _, n := range w.nodes {
+		if n.up && n.fsm != nil && n.fsm.Asked > n.fsm.Permits {
+			return // a slow FSM has not performed everything it was handed yet
+		}
+	}
 	last := m.restores[len(m.restores)-1]
 	aborted := map[string]bool{}
 	for _, c := range w.calls {
